@@ -180,8 +180,10 @@ def check_dump_file(run, model, rng, d):
         got = {}
         orig = dump.parse_dump_data
         try:
-            with os.fdopen(fd, "w") as f:
-                f.write("".join(lines))
+            # the line ends of the platform the dump was saved on: LF, CRLF or CR (the file is read in text mode)
+            eol = rng.choice(["\n", "\n", "\r\n", "\r"])
+            with os.fdopen(fd, "w", newline="") as f:
+                f.write("".join(lines).replace("\n", eol))
             dump.parse_dump_data = lambda data, *a, **k: got.setdefault("bytes", bytes(data)) and []
             try:
                 dump.parse_dump_file(path, "/nonexistent_header", "/nonexistent_strings")
@@ -195,7 +197,7 @@ def check_dump_file(run, model, rng, d):
         back = got.get("bytes", b"")
         if back != d:
             run.violation("dumpfile:format%d" % fid, "a dump file in format %d with comment / title lines is not read back as its bytes (%d of %d bytes)" % (fid, len(back), len(d)),
-                          dict(kind="S", fn="dump-file", fmt=fid, input_hex=d.hex()[:4000], file_text="".join(lines)[:3000], got_hex=back.hex()[:400], exc=got.get("exc")))
+                          dict(kind="S", fn="dump-file", fmt=fid, eol=repr(eol), input_hex=d.hex()[:4000], file_text="".join(lines)[:3000], got_hex=back.hex()[:400], exc=got.get("exc")))
 
 
 def check_cli_hex(run, model, rng):
